@@ -50,7 +50,7 @@ func (c02) Budget(tier string) runner.Budget {
 	if tier == "thorough" {
 		return runner.Budget{Plans: 400000, PlansPerProc: 2500, Wall: 12 * time.Minute}
 	}
-	return runner.Budget{Plans: 200000, PlansPerProc: 2500, Wall: 45 * time.Second, MinPlans: 80000}
+	return runner.Budget{Plans: 280000, PlansPerProc: 2500, Wall: 45 * time.Second, MinPlans: 80000}
 }
 
 func (c02) Describe() runner.Description {
